@@ -243,6 +243,47 @@ def special_cases(_=None):
   return len(roots), len(roots), viols, []
 
 
+def legacy_memoized_case(_=None):
+  """daglish_legacy.memoized_traverse: every memoizable object is visited once (also empty lists /
+  dicts shared between several places), all paths are reported, the identity traversal keeps the
+  sharing."""
+  viols = []
+  def bad(what):
+    viols.append(dict(kind='legacy', spec='legacy', what=what, sig='legacy-memoized', store='', op=''))
+  def roots():
+    e, d, dd = [], {}, collections.defaultdict(list)
+    yield 'shared empty list', fdl.Config(pool.fc, e, q=[e, {'k': e}])
+    yield 'shared empty dict', [d, (d,), {'x': d}]
+    yield 'shared empty defaultdict', fdl.Config(pool.fc, dd, q=dd)
+    full = [0]
+    yield 'shared non-empty list', fdl.Config(pool.fc, full, q=[full, ()])
+    sub = fdl.Config(pool.fb)
+    yield 'shared argument-less Config', [sub, {'s': sub}]
+  n = 0
+  for name, root in roots():
+    n += 1
+    visits = collections.Counter()
+    def traverse(all_paths, value):
+      if daglish.is_memoizable(value):
+        visits[id(value)] += 1
+        got = {daglish.path_str(p) for p in all_paths}
+        want = {daglish.path_str(p) for p, v in all_paths_of(root) if v is value}
+        if got != want:
+          bad(f'{name}: all-paths of a {type(value).__name__} are {sorted(got)}, it is reached by {sorted(want)}')
+      return (yield)
+    all_paths_of = all_paths
+    try:
+      rebuilt = daglish_legacy.memoized_traverse(traverse, root)
+    except Exception as e:   # pylint: disable=broad-except
+      bad(f'{name}: memoized_traverse raised {type(e).__name__}: {str(e)[:80]}')
+      continue
+    if any(c != 1 for c in visits.values()):
+      bad(f'{name}: the legacy memoized traversal visited an object {max(visits.values())} times (exactly once expected)')
+    if canon.canon(rebuilt) != canon.canon(root):
+      bad(f'{name}: the identity traversal through daglish_legacy.memoized_traverse lost the sharing structure')
+  return n, n, viols, [dict(scenario='daglish_legacy.memoized_traverse, shared (empty) containers')]
+
+
 def late_registration_case(_=None):
   """A node type that is registered *after* registries have already looked it up (and treated it
   as a leaf) is a registered node type from then on: every registry that falls back to the default
@@ -287,6 +328,8 @@ def late_registration_case(_=None):
 def replay(case):
   if case['kind'] == 'late':
     r = late_registration_case()
+  elif case['kind'] == 'legacy':
+    r = legacy_memoized_case()
   elif case['kind'] == 'temps':
     r = temp_leaves_case()
   elif case['kind'] == 'cycle':
@@ -310,6 +353,7 @@ def run(tier='quick', seed=0, nproc=16):
   res.append(common.guard(special_cases))
   res.append(common.guard(temp_leaves_case))
   res.append(common.guard(late_registration_case))
+  res.append(common.guard(legacy_memoized_case))
   return common.merge(
       res, 'layerb.prop_C08',
       rule='every DAG shape <= %d nodes over Config/list/tuple/dict + pool configurations '
